@@ -113,7 +113,7 @@ func (x *Exec) callCommon(fr *frame, s *State, c *ssa.CallCommon, fnv Value, arg
 	}
 	if c.IsInvoke() {
 		key := x.E.invokeKey(c)
-		x.atCallCheck(fr, s, key)
+		x.atCallCheck(fr, s, key, append([]Value{fnv}, args...))
 		x.nilCheckIface(fr, s, fnv, pos)
 		if ct := x.E.Contracts[key]; ct != nil {
 			ct.Used = true
@@ -137,7 +137,7 @@ func (x *Exec) callCommon(fr *frame, s *State, c *ssa.CallCommon, fnv Value, arg
 		if u, ok := c.Value.(*ssa.UnOp); ok && u.Op == token.MUL {
 			if a, ok := u.X.(*ssa.Alloc); ok && a.Comment != "" {
 				key := "localfn " + a.Comment
-				x.atCallCheck(fr, s, key)
+				x.atCallCheck(fr, s, key, args)
 				if ct := x.E.Contracts[key]; ct != nil {
 					ct.Used = true
 					var names []string
@@ -189,7 +189,7 @@ func (x *Exec) nilCheckIface(fr *frame, s *State, v Value, pos token.Pos) {
 }
 
 func (x *Exec) callFunction(fr *frame, s *State, callee *ssa.Function, args []Value, bindings []Value, pos token.Pos) []Value {
-	x.atCallCheck(fr, s, x.E.fnKey(callee))
+	x.atCallCheck(fr, s, x.E.fnKey(callee), args)
 	if res, ok := x.stdlibModel(fr, s, callee, args, pos, false); ok {
 		return res
 	}
@@ -325,11 +325,11 @@ func (x *Exec) applyContract(fr *frame, s *State, ct *Contract, callee *ssa.Func
 	for k, rq := range ct.Requires {
 		if !x.safety {
 			// units verified without safety obligations assume their callees' preconditions
-			x.C.Assume(Implies(s.Reach, env.evalBool(rq.Expr)))
+			x.C.Assume(Implies(s.Reach, env.evalAssume(rq.Expr)))
 			x.C.Trusted["callee preconditions are assumed (not checked) in units marked nosafety"] = true
 			continue
 		}
-		x.C.Oblige(fmt.Sprintf("%s#call.%s.requires%d.%d", shortFn(fr.fn), sanitize(ct.Key), k, x.bump(fr, "callreq"+ct.Key)), "requires", x.pos(pos), rq.Text, s.Reach, env.evalBool(rq.Expr))
+		x.C.Oblige(fmt.Sprintf("%s#call.%s.requires%d.%d", shortFn(fr.fn), sanitize(ct.Key), k, x.bump(fr, "callreq"+ct.Key)), "requires", x.pos(pos), rq.Text, s.Reach, env.evalGoal(rq.Expr))
 	}
 	pre := s.Clone()
 	if ct.Modifies == nil {
@@ -395,7 +395,7 @@ func (x *Exec) applyContract(fr *frame, s *State, ct *Contract, callee *ssa.Func
 		x.ghostUpdate(post, s, g)
 	}
 	for _, en := range ct.Ensures {
-		x.C.Assume(Implies(s.Reach, post.evalBool(en.Expr)))
+		x.C.Assume(Implies(s.Reach, post.evalAssume(en.Expr)))
 	}
 	if ct.Trusted {
 		x.C.Trusted["assumed contract of "+ct.Key] = true
@@ -460,8 +460,8 @@ func (x *Exec) ghostUpdate(env *specEnv, s *State, g *Clause) {
 type modTarget struct {
 	kind     string // "loc" | "obj" | "elems" | "maps"
 	ref, off Term
-	n        int64 // loc: number of leaves
-	len      Term  // elems: length in leaves
+	n        int64  // loc: number of leaves
+	len      Term   // elems: length in leaves
 	sorts    []Sort // loc: the sort of each leaf; elems: the sorts of an element
 }
 
@@ -564,6 +564,7 @@ func (x *Exec) havocModifies(env *specEnv, s *State, m *Clause) {
 		}
 	}
 }
+
 // autoPure: a package function that is loop-free, writes nothing but its own
 // locals, and calls only functions of the same kind or modelled pure library
 // functions. Such callees are inlined exactly.
@@ -631,14 +632,18 @@ func (e *Engine) autoPure(fn *ssa.Function, depth int) bool {
 	return true
 }
 
-// atCallCheck evaluates the unit's "atcall" region postconditions anchored at calls of key.
-func (x *Exec) atCallCheck(fr *frame, s *State, key string) {
+// atCallCheck evaluates the unit's "atcall" region postconditions anchored at calls of key;
+// the call's arguments (receiver first) are visible as callarg0, callarg1, ...
+func (x *Exec) atCallCheck(fr *frame, s *State, key string, args []Value) {
 	if fr.contract != nil && len(fr.contract.AtCalls) > 0 {
 		for k, ac := range fr.contract.AtCalls {
 			if ac.Callee != key {
 				continue
 			}
 			env := x.invEnv(fr, s)
+			for i, a := range args {
+				env = env.with(fmt.Sprintf("callarg%d", i), a)
+			}
 			// a call site where the locals the assertion names are not in scope is not the anchored one
 			prop, ok := func() (t Term, ok bool) {
 				defer func() {
@@ -650,7 +655,7 @@ func (x *Exec) atCallCheck(fr *frame, s *State, key string) {
 						panic(r)
 					}
 				}()
-				return env.evalBool(ac.Expr), true
+				return env.evalGoal(ac.Expr), true
 			}()
 			if !ok {
 				continue
